@@ -13,7 +13,8 @@ from .. import ref
 from ..colab import CONTENTS, LFS, MD5, TREES, hi, listing, make_odb, tree_oid
 from ..world import World, digest_obj, stamp, walk_files, write_file
 
-TAMPERS = ["truncate", "append", "rewrite-same-len", "rewrite-other-len", "replace-by-rename"]
+TAMPERS = ["truncate", "append", "rewrite-same-len", "rewrite-other-len", "replace-by-rename",
+           "replace-by-rename-same-len-same-mtime"]
 QUERIES = ["check", "exist1", "exist2", "hcheck", "checkout", "add-verify-good", "add-verify-bad"]
 
 
@@ -29,9 +30,11 @@ def tamper(path, how, keep_protected=False, near=False):
         new = bytes((b + 1) % 256 for b in data) if data else b"!"
     elif how == "rewrite-other-len":
         new = b"completely different bytes"
+    elif how == "replace-by-rename-same-len-same-mtime":
+        new = bytes((b + 2) % 256 for b in data) if data else b"!"
     else:
         new = b"renamed-in:" + data
-    if how == "replace-by-rename":
+    if how.startswith("replace-by-rename"):
         tmp = path + ".user"
         with open(tmp, "wb") as f:
             f.write(new)
@@ -40,7 +43,10 @@ def tamper(path, how, keep_protected=False, near=False):
         with open(path, "wb") as f:
             f.write(new)
     os.chmod(path, 0o444 if keep_protected else 0o644)
-    if near:
+    if how == "replace-by-rename-same-len-same-mtime" and data:
+        # only the inode tells the difference
+        os.utime(path, ns=(orig_ns, orig_ns))
+    elif near:
         # the tampering lands in the same second as the original write: mtime differs by 1 microsecond
         os.utime(path, ns=(orig_ns + 1000, orig_ns + 1000))
     else:
@@ -251,8 +257,8 @@ def run(ctx):
     depth = 3
     ops = TAMPERS + QUERIES
     ctx.rule = (
-        f"E2: every sequence of length {depth} over 5 tamper patterns (truncate, append, rewrite same / other "
-        "length, replace by rename; each followed by chmod 0o644 and a logical-clock mtime) and 7 queries (check, "
+        f"E2: every sequence of length {depth} over 6 tamper patterns (truncate, append, rewrite same / other "
+        "length, replace by rename, replace by rename keeping length and mtime; each followed by chmod 0o644 and a logical-clock mtime) and 7 queries (check, "
         "oids_exist with 1 and 2 ids, hashfile.check(tree), checkout, add(verify) from a good and from a corrupt "
         "source) on a file object and on a directory object x state {none, cold, warm (entry from before the "
         "tampering)} x both store classes; thorough adds the variants that keep 0o444 (outside the claim, only "
